@@ -408,6 +408,125 @@ def truncation_rule(rep):
         raise AnalysisBroken("xcodeMoreChars has no end-of-input return (idiom changed)")
 
 
+def bom_once_rule(rep):
+    from ..engines import guard
+    rep.rule("C05.f", "a byte-order mark is consumed exactly once: in XMLReader::doInitDecode (which steps fRawBufIndex over the BOM "
+             "and then over an XML/text declaration, if any) every plain assignment to fRawBufIndex either restores a position "
+             "saved *after* the BOM was skipped (a local assigned from fRawBufIndex) or lies on a path that ends in a throw — a "
+             "normal path that rewinds the index to a constant hands the BOM bytes to the transcoder as content (U+FEFF in front "
+             "of the document), so the same document with and without BOM no longer yields the same content")
+    g = core.run_xa([os.path.join(core.REPO, "src/xercesc/internal/XMLReader.cpp")], cfg=r"^XMLReader::doInitDecode$", flat=False)
+    cfg = guard.Cfg(g.cfg("XMLReader::doInitDecode"))
+    F = ["f", "XMLReader::fRawBufIndex"]
+    saved = set()
+    for bid, i, el in cfg.elements():
+        x = el.get("x")
+        if x and x[0] == "b" and x[1] == "=" and x[2][0] == "l" and x[3] == F:
+            saved.add(x[2][1])
+    n = 0
+    for bid, i, el in cfg.elements():
+        x = el.get("x")
+        if not (x and x[0] == "b" and x[1] == "=" and x[2] == F):
+            continue
+        n += 1
+        rhs = x[3]
+        while rhs[0] == "cast":
+            rhs = rhs[2]
+        if rhs[0] == "l" and rhs[1] in saved:
+            rep.ob("C05.f", "doInitDecode@assign:%d" % n, True, "restores the position saved after the BOM (%s)" % rhs[1], "%s:%s" % (cfg.file, el.get("l")))
+            continue
+        # must end in a throw: no normal path from here to the function exit
+        els = cfg.blocks[bid]["els"]
+        thrown = any((e2.get("x") or [None])[0] == "t" for e2 in els[i + 1:]) or cfg.blocks[bid].get("noret")
+        escapes = False
+        if not thrown:
+            seen, work = set(), list(cfg.succs(bid))
+            while work:
+                b = work.pop()
+                if b in seen:
+                    continue
+                seen.add(b)
+                if b == cfg.exit:
+                    escapes = True
+                    break
+                if cfg.throws(b):
+                    continue
+                work.extend(cfg.succs(b))
+        rep.ob("C05.f", "doInitDecode@assign:%d" % n, not escapes,
+               "rewinds to %s only on a path that throws" % core.sx_str(rhs) if not escapes else
+               "XMLReader::doInitDecode (line %s) sets fRawBufIndex = %s on a path that returns normally: a byte-order mark that was "
+               "already skipped is decoded again as content" % (el.get("l"), core.sx_str(rhs)), "%s:%s" % (cfg.file, el.get("l")))
+    rep.floor("C05.f", n, 8)
+
+
+ELEM_SIZE = {"XMLByte": 1, "char": 1, "unsigned char": 1, "UCS4Ch": 4, "UTF16Ch": 2, "XMLCh": 2}
+ADVANCE_TARGETS = [
+    # function, file, table that yields the sequence length (None: fixed-width), domain of that length
+    ("XMLUTF8Transcoder::transcodeFrom", "src/xercesc/util/XMLUTF8Transcoder.cpp", "gUTFBytes", range(0, 6)),
+    ("XMLUCS4Transcoder::transcodeFrom", "src/xercesc/util/XMLUCS4Transcoder.cpp", None, [None]),
+]
+
+
+def utf8_advance_rule(rep, rid="C05.g"):
+    from ..engines import advance
+    rep.rule(rid, "consumed bytes are accounted for (path-exhaustive abstract interpretation of one round of the decoding loops of "
+             "XMLUTF8Transcoder::transcodeFrom — for every sequence length 0..5 given by the lead byte — and "
+             "XMLUCS4Transcoder::transcodeFrom; data-dependent tests fork, throwing paths end): on every way out of a round — "
+             "next round, break — the source pointer has advanced by exactly the sum of the character sizes recorded in that "
+             "round, and by nothing when no character was stored. A round that leaves bytes counted as eaten without a decoded "
+             "character or an exception skips input silently; one that un-reads too little restarts in the middle of a sequence "
+             "at the next buffer boundary")
+    total = 0
+    for q, fl, lentab, dom in ADVANCE_TARGETS:
+        g = core.run_xa([os.path.join(core.REPO, fl)], st="^" + q + "$", flat=False)
+        body = g.st(q)["body"]
+        loops = [n for n in body[1] if isinstance(n, list) and n and n[0] == "while"]
+        if len(loops) != 1 or loops[0][2][0] != "block":
+            raise AnalysisBroken("%s: expected one decoding while loop with a block body" % q)
+        stmts = loops[0][2][1]
+        start, K = 0, None
+        if lentab:
+            start = None
+            for i, n in enumerate(stmts):
+                if n[0] == "decl" and len(n[1]) == 1 and n[1][0][2] and any(
+                        isinstance(x, list) and x and x[0] == "g" and x[1] == lentab for x in core.sx_walk(n[1][0][2])):
+                    start, K = i + 1, n[1][0][0]
+            if start is None:
+                raise AnalysisBroken("%s: the sequence length is no longer read from %s" % (q, lentab))
+        # the three cursors: locals initialised from the source / charSizes / toFill parameters
+        cur, scale = {}, 1
+        for n in body[1]:
+            if isinstance(n, list) and n and n[0] == "decl":
+                for name, ty, init, _c in n[1]:
+                    while init and init[0] == "cast":
+                        init = init[2]
+                    if init and init[0] == "p" and init[2] not in cur:
+                        cur[init[2]] = name
+                        if init[2] == "srcData":
+                            et = ty.replace("const", "").replace("*", "").strip()
+                            if et not in ELEM_SIZE:
+                                raise AnalysisBroken("%s: source cursor of unknown element type %s" % (q, ty))
+                            scale = ELEM_SIZE[et]
+        for need in ("srcData", "charSizes", "toFill"):
+            if need not in cur:
+                raise AnalysisBroken("%s: no cursor local initialised from parameter %s" % (q, need))
+        for k in dom:
+            paths, bad = advance.check_round(stmts[start:], {K: k} if K else {}, cur["srcData"], cur["charSizes"], cur["toFill"], scale)
+            total += paths
+            key = "%s/len=%d" % (q.split("::")[-2].replace("XML", "").replace("Transcoder", "") + "::transcodeFrom" if K is None else "transcodeFrom", (k + 1) if K else scale)
+            what = "%d path(s) through a round: advance == recorded sizes on each" % paths
+            if bad:
+                kind, adv, sizes, trace = bad[0]
+                what = ("%s: for a sequence of %d byte(s) the path %s leaves the round (%s) with the source pointer advanced by %d "
+                        "byte(s) but character sizes recorded for %d (%s) — bytes are %s" % (
+                            q, (k + 1) if K else scale, " ".join("%d:%s" % (l, "T" if v else "F") for l, v in trace[-6:]),
+                            {"next": "next round", "break": "break"}.get(kind, kind), adv, sum(sizes), sizes,
+                            "counted as eaten without being decoded or reported" if adv > sum(sizes) else "decoded twice or the cursor moved backwards"))
+            rep.ob(rid, key, not bad, what, "%s:%s" % (fl, bad[0][3][-1][0] if bad and bad[0][3] else loops[0][-1]))
+    rep.count(total)
+    rep.floor(rid, total, 14)
+
+
 def run(rep):
     tus = [os.path.join(core.REPO, t) for t in TUS]
     f = core.run_xa(tus, tables=r"^g(From|To)Table|^gUTF|^gFirstByteMark$|^XMLUni::fg\w*Encoding|^gEncodingNameMap$|^XMLRecognizer::fg",
@@ -423,6 +542,8 @@ def run(rep):
     dispatch.run(rep, lf, "C05")
     from . import C12
     C12.eaten_rule(rep, lf, "C05.d")
+    bom_once_rule(rep)
+    utf8_advance_rule(rep)
     rep.units.update(os.path.relpath(t, core.REPO) for t in lf.tus)
     truncation_rule(rep)
     rep.undecided += ["the decoding/encoding code itself (second-byte ranges for E0/ED/F0/F4 leads, surrogate pairing, "
